@@ -154,9 +154,8 @@ func VerifC09Indent(n, alpha int, tmpl, prefix, indent string) {
 	var d1, d2 bytes.Buffer
 	d1.WriteString("#")
 	d2.WriteString("#")
-	// v1.Indent does not return on these inputs (natively either; known finding). Bounded
-	// execution cannot report that as a value, so they are cut.
-	vrt.Assume(!zzC09MayHang(b, prefix, indent))
+	// (Before fix 4952b30 v1.Indent did not return on the inputs of zzC09MayHang; they are no
+	// longer cut: a regression shows up as an unwinding failure of this obligation.)
 	err1 := Indent(&d1, b, prefix, indent)
 	err2 := stdjson.Indent(&d2, b, prefix, indent)
 	inKF := err2 == nil && zzC09KFRegion(b, prefix, indent)
